@@ -489,6 +489,18 @@ func (f *File) Unlock(owner, start, end uint64) error {
 	})
 }
 
+// UnlockCtx is Unlock with the request's context: cancelling it is what a FUSE
+// INTERRUPT (the application got a signal inside the system call) does.
+func (f *File) UnlockCtx(ctx context.Context, owner, start, end uint64) error {
+	l, ok := f.h.(fs.HandlePOSIXLocker)
+	if !ok {
+		return fmt.Errorf("%s: no locking", f.Name)
+	}
+	return f.n.call(func() error {
+		return l.Unlock(ctx, (*bfuse.UnlockRequest)(f.lockReq(owner, start, end, bfuse.LockUnlock)))
+	})
+}
+
 // QueryLock asks whether the lock could be taken; returns "" if free, else
 // "read" or "write" (type of the conflicting lock).
 func (f *File) QueryLock(owner, start, end uint64, excl bool) (string, error) {
